@@ -81,6 +81,10 @@ def classify(t, v):
 def replay(t, v):
     """Re-run the witness against the real build: count how many replicas produce x."""
     from lib import common
+    if t.factory != 'range_tiling':
+        from mirsym.explore import replay_native
+        w = common.world()
+        return replay_native(w, globals()[t.factory](w, **t.params), v, common.replayer().run)
     ty, p = t.params['ty'], t.params['peers']
     w = v['witness']
     s = next(val for k, val in w.items() if k.startswith('start'))
@@ -103,3 +107,82 @@ def replay(t, v):
         if panic or cnt != want:
             bad[prof] = 'panic' if panic else 'x=%d produced by %d replicas, expected %d' % (x, cnt, want)
     return (bool(bad), 'range %s %d..%d peers=%d: %s' % (ty, s, e, p, bad or 'real build behaves correctly'))
+
+
+# ------------------------------------------------------------------------------------ FileSource
+
+def file_source_harness(w, size, replicas):
+    """every file content of `size` bytes (each byte symbolic; the code's `== b'\\n'` tests fork) read by
+    `replicas` replicas: the union of the emitted lines is exactly the file's lines, each once"""
+    from mirsym import hlib
+    from mirsym.values import Ref, Opaque
+    from mirsym.models import none
+    from mirsym.models_coll import VecModel
+    from mirsym.explore import Violation
+    from props.start import exec_metadata
+    setup = w.impls[('Operator', 'FileSource')]['setup'][0]
+    nxt = w.impls[('Operator', 'FileSource')]['next'][0]
+
+    def h(ex):
+        data = [ex.fresh_int('u8', 'byte%d' % i) for i in range(size)]
+        ex.env['file_bytes'] = data
+        emitted = []
+        for g in range(replicas):
+            src = hlib.mk_struct(w, 'FileSource', path=Opaque('PathBuf'), reader=none(), current=Int('usize', 0),
+                                 end=Int('usize', 0), terminated=False, coord=none())
+            md = exec_metadata(w, hlib.coord(w, 0, 0, g), False)
+            md.set('global_id', Int('u64', g))
+            md.set('replicas', VecModel([hlib.coord(w, 0, 0, i) for i in range(replicas)]))
+            holder = [src]
+            ex.call_function(setup, [Ref(holder, 0), Ref([md], 0)])
+            out = hlib.drive(ex, nxt, holder, size + 4)
+            hlib.check_grammar(ex, out, 1, 'FileSource output')
+            for e in out:
+                if e.variant == 'Item':
+                    emitted.append((g, [id_of(b) for b in e.fields[0].items]))
+        # the file's lines (forks on bytes the code never looked at)
+        lines, cur = [], []
+        for b in data:
+            cur.append(id_of(b))
+            if ex.branch(ex.binop('Eq', b, Int('u8', 10)), 'oracle: newline'):
+                lines.append(cur)
+                cur = []
+        if cur:
+            lines.append(cur)
+        got = sorted(l for _, l in emitted)
+        if got != sorted(lines):
+            raise Violation('file lines are not emitted exactly once across the replicas', hlib._wit(ex),
+                            {'size': size, 'replicas': replicas, 'lines': lines, 'emitted': emitted})
+        if len(lines) > 1:
+            hlib.cover(ex, 'multi_line')
+        return {'size': size, 'replicas': replicas, 'lines': lines, 'emitted': emitted}
+    return h
+
+
+def id_of(b):
+    return str(b.v)
+
+
+_range_tasks = TASKS
+
+
+def TASKS(tier):     # noqa: F811
+    ts = _range_tasks(tier)
+    sizes = range(0, 6) if tier == 'quick' else range(0, 9)
+    reps = [1, 2, 3, 4] if tier == 'quick' else [1, 2, 3, 4, 5, 8, 9]
+    for n in sizes:
+        for r in reps:
+            ts.append(Task('file_%db_%dr' % (n, r), 'file_source_harness', {'size': n, 'replicas': r},
+                           bounds='FileSource::setup+next on every replica; file of %d symbolic bytes (newline '
+                                  'positions decided by the solver on each path), %d replicas' % (n, r),
+                           role='file', opts={'covers': ['multi_line'] if n >= 3 else []}, budget=400))
+    return ts
+
+
+_range_classify = classify
+
+
+def classify(t, v):   # noqa: F811
+    if t.factory == 'file_source_harness':
+        return 'file/' + v['msg'][:50]
+    return _range_classify(t, v)
